@@ -665,6 +665,58 @@ def check_hash_subset_of_eq(rep, model: Model, rule: str) -> None:
             rep.ok(rule, f"{ci.name}.__hash__", h.where, f"hash reads {sorted(hr)} within what == compares {sorted(er)}")
 
 
+def check_no_value_identity(rep, model: Model, rule: str) -> None:
+    """`is` / `is not` between *values held in fields or returned by calls* (names, numbers, parameters):
+    whether two equal strings or numbers are one object is an accident of interning, so the answer of
+    the comparison is not determined by the values.  Allowed: comparison with None/True/False/
+    NotImplemented/Ellipsis; two plain names (an object-identity fast path such as `other is self`); and a
+    fast path `a is b or a == b` with the same operands."""
+    singles = (type(None), bool, type(Ellipsis))
+    n = 0
+    for fi in model.all_functions():
+        parents = {}
+        for node in ast.walk(fi.node):
+            for c in ast.iter_child_nodes(node):
+                parents[c] = node
+        for node in ast.walk(fi.node):
+            if not isinstance(node, ast.Compare):
+                continue
+            operands = [node.left] + list(node.comparators)
+            for i, op in enumerate(node.ops):
+                if not isinstance(op, (ast.Is, ast.IsNot)):
+                    continue
+                a, b = operands[i], operands[i + 1]
+                n += 1
+
+                def single(x):
+                    return (isinstance(x, ast.Constant) and isinstance(x.value, singles)) or \
+                        (isinstance(x, ast.Name) and x.id in ("None", "NotImplemented", "Ellipsis"))
+                construct = f"{fi.qualname}: {ast.unparse(node)}"
+                where = f"{fi.module.rel}:{node.lineno}"
+                if single(a) or single(b):
+                    rep.ok(rule, construct, where, "comparison with a singleton", nontrivial=False)
+                    continue
+                if isinstance(a, ast.Name) and isinstance(b, ast.Name):
+                    rep.ok(rule, construct, where, "identity of two objects held in plain names (fast path)", nontrivial=False)
+                    continue
+                par = parents.get(node)
+                backed = False
+                if isinstance(par, ast.BoolOp) and isinstance(par.op, ast.Or) and isinstance(op, ast.Is):
+                    da, db = ast.dump(a), ast.dump(b)
+                    for other in par.values:
+                        if isinstance(other, ast.Compare) and len(other.ops) == 1 and isinstance(other.ops[0], ast.Eq) and \
+                                {ast.dump(other.left), ast.dump(other.comparators[0])} == {da, db}:
+                            backed = True
+                if backed:
+                    rep.ok(rule, construct, where, "identity fast path backed by == on the same operands")
+                    continue
+                rep.violation(rule, construct, where,
+                              f"`{ast.unparse(node)}` compares values by object identity: two equal names or numbers "
+                              f"(e.g. strings built at run time) need not be the same object, so the outcome is not "
+                              f"determined by the values", witness_class=f"identity comparison in {fi.qualname}")
+    rep.extra["identity_comparisons_examined"] = n
+
+
 REFLECTED = ["__radd__", "__rsub__", "__rmul__", "__rtruediv__", "__rpow__", "__rfloordiv__", "__rmod__",
              "__iadd__", "__isub__", "__imul__", "__itruediv__", "__ipow__", "__pos__", "__abs__", "__float__",
              "__int__", "__bool__", "__index__", "__coerce__"]
